@@ -157,8 +157,11 @@ func (in *Interp) info(fn *ssa.Function) *fnInfo {
 // the first use of one of the package's variables.
 var lazyInitOK = map[string]bool{
 	"strconv": true, "io": true, "unicode/utf8": true, "strings": true, "bytes": true, "sort": true, "math": true,
-	"math/bits": true, "net/url": true, "path": true, "bufio": true, "html": false,
+	"math/bits": true, "net/url": true, "path": true, "bufio": true, "io/ioutil": true, "errors": false,
 }
+
+// benignUninit: variables only handed to stubs (log.New(os.Stderr, ...)); they read as nil.
+var benignUninit = map[string]bool{"os.Stderr": true, "os.Stdout": true, "os.Stdin": true}
 
 // dynInit reports whether the package initialiser of g's package stores into g.
 var dynInitCache sync.Map // *ssa.Package -> map[*ssa.Global]bool
@@ -216,6 +219,12 @@ func (in *Interp) global(g *ssa.Global) *Value {
 	}
 	if g.Pkg != nil && !in.initPkgs[g.Pkg.Pkg.Path()] && dynInit(g) {
 		path := g.Pkg.Pkg.Path()
+		if benignUninit[path+"."+g.Name()] {
+			c := new(Value)
+			*c = zero(g.Type().(*types.Pointer).Elem())
+			in.globals[g] = c
+			return c
+		}
 		if !lazyInitOK[path] {
 			in.unsupported("use of package-level variable " + path + "." + g.Name() + " whose package initialiser is not executed")
 		}
